@@ -322,10 +322,62 @@ def mc_pager(res, pid, tier):
             raise core.ToolError("vacuity: LALR merging was not refuted by MC_Pager")
 
 
+MC_CPCT_SETS = {"quick": (["cat-calc", "cat-rec-merge-del-ins", "cat-rec-avoid-second"], 3, 3),
+                "thorough": (["cat-calc", "cat-rec-merge-del-ins", "cat-rec-merge-del-ins2", "cat-rec-avoid-second", "cat-nonlalr1",
+                              "cat-late-merge", "cat-closure-requeue", "cat-dangling-else", "cat-nullable-chain"], 4, 4)}
+
+
+def mc_cpct(res, pid, tier):
+    """bounded model of the CPCT+ algorithm (cost buckets, node merging, first-success cut-off and
+    sweep, unfolding, ranking) against the exhaustive reference search, every erroneous input up to
+    length L of every grammar in the set; plus two wrong algorithms that must be refuted"""
+    ids, L, maxc = MC_CPCT_SETS[tier]
+    insts = [dict(id=c["id"], y=c["y"], kind=c["kind"], width=32, sections=[], inputs={}, recovery="off", iseed=1, budget_ms=100)
+             for c in catalog.CAT if c["id"] in ids]
+    jf = os.path.join(res.wd, "mcc-job.json")
+    of = os.path.join(res.wd, "mcc-out.ndjson")
+    gf = os.path.join(res.wd, "mcc-grammars.ndjson")
+    with open(jf, "w") as f:
+        json.dump(dict(seed=1, instances=insts, workers=4), f)
+    core.run_vh(["lr", jf, of])
+    with open(gf, "w") as f:
+        for line in open(of):
+            if '"ev":"grammar"' in line:
+                f.write(line)
+    body = "SPECIFICATION Spec\nCONSTANTS\n  L = %d\n  MAXC = %d\n  Variant = \"%s\"\n  ParseAtLeast = 3\n  TryParseAtMost = 250\n" \
+           "INVARIANT MergeSound\nINVARIANT RepairsRepair\nINVARIANT AlgEqualsRef\nINVARIANT CostsAgree\nINVARIANT Minimal\nINVARIANT Progress\n" \
+           "CHECK_DEADLOCK FALSE\n"
+    cfg = os.path.join(res.wd, "MC_CPCT.cfg")
+    with open(cfg, "w") as f:
+        f.write(body % (L, maxc, "code"))
+    r = core.run_tlc("MC_CPCT", cfg, dict(GRAMMARS=gf), res.wd, timeout=3000, workers=12 if tier == "thorough" else 8, heap="10g")
+    res.add_tlc(r)
+    res.notes["mc_cpct"] = dict(grammars=ids, distinct=r["distinct"], input_length=L, max_cost=maxc,
+                                what="CPCT+ as coded (buckets, merging of compatible nodes, stop at first success + sweep, unfold, rank, strip) "
+                                     "under every choice of the node that ends the search phase, against RefRepairs; invariants MergeSound, "
+                                     "RepairsRepair, AlgEqualsRef, CostsAgree, Minimal, Progress")
+    if r["error"]:
+        res.violation("bounded model MC_CPCT.tla: " + r["error"][:500], dict(kind="mc", grammars=ids))
+    elif not r["finished"]:
+        res.cov["inconclusive"] += 1
+    refuted = {}
+    for variant in ("nodel", "nosweep"):
+        cfg2 = os.path.join(res.wd, "MC_CPCT_%s.cfg" % variant)
+        with open(cfg2, "w") as f:
+            f.write(body % (3, 3, variant))
+        r2 = core.run_tlc("MC_CPCT", cfg2, dict(GRAMMARS=gf), res.wd, timeout=900, workers=4, heap="4g")
+        refuted[variant] = bool(r2["error"])
+    res.notes["mc_cpct_mutation_sanity"] = refuted
+    if not all(refuted.values()):
+        raise core.ToolError("vacuity: a deliberately wrong CPCT+ variant was not refuted by MC_CPCT: %s" % refuted)
+
+
 def main(pid, tier, replay=None):
     res = run(pid, tier, replay)
     if pid in ("C01", "C02") and not replay:
         mc_pager(res, pid, tier)
+    if pid in ("C05", "C06") and not replay:
+        mc_cpct(res, pid, tier)
     if pid == "C03" and not replay:
         # "a compile-time build fails iff the counts differ from %expect / %expect-rr": build
         # histories over grammars with and without conflicts and declarations, validated against
